@@ -37,6 +37,7 @@ Sixth round: C08.3 the blacklist is loaded before the instances (shared with C11
 Seventh round: C08.6 every change of the state takes the new since (down-since and frozen-since are different times); C08.3 the blacklist flag of every instance is the verdict of _is_blacklisted on its name, recomputed for all instances when the list changes.
 Eighth round: C08.2 at a reload the placement recorded on a server without presence goes through the normal leaf placement and is given up without that attempt only for a schedule-once instance (shared with C11.2); C08.3 every entry of the blacklist is matched against the name as a pattern - no prefilter - and the walk is left early only with the verdict 'blacklisted'.
 Ninth round: C08.6 the stored record of a server's state is written by the state recorder only, with the (state, since) pair get_state() returns. C08.1 before a server is frozen the unschedule mark of every instance on it is reset, so the marks in force are those of this freeze (F24; repaired in /repo).
+Tenth round: C08.6 what the leaf removal marks on the instance (evicted) the leaf placement withdraws on every successful path - or every reader outside the scheduler also asks for 'not placed' (F25; repaired in /repo).
 Does NOT decide timing ('in the first cycle after the timeout') over clock
 sequences.
 """
@@ -726,6 +727,108 @@ def _marks_of_this_freeze(ctx):
                construct='marks of earlier freezes reset')
 
 
+def _marks_withdrawn(ctx):
+    """C08.6: what the leaf removal marks, the leaf placement un-marks.
+
+    Server.remove leaves per-instance marks behind (today: evicted = True);
+    readers outside the cycle act on them (the master terminates an instance
+    that is schedule-once and evicted).  An instance can be put back without
+    passing the one place of the placement loop that resets the mark by hand
+    - the reload of a modified server record takes everything off the old
+    object and restores it on the new one - so either every successful path
+    of the leaf placement stores the constructor's value back, or every
+    reader outside the scheduler module also requires 'not placed'.
+    Otherwise an instance that sits on a frozen (or up) server, marked by
+    nobody, is terminated by the next cycle."""
+    from . import c01
+    _nz, _server, _node, put, remove, _pred = c01._roles(ctx)
+    app_cls = ctx.index.get_class(K.SCHED, 'Application')
+    init = app_cls.methods.get('__init__')
+    ctx.require(init is not None, 'Application.__init__', rule='C08.6')
+    initial = {}
+    for sub in K.walk_no_nested(init.node):
+        if isinstance(sub, ast.Assign) and isinstance(sub.value,
+                                                      ast.Constant):
+            for tgt in sub.targets:
+                if isinstance(tgt, ast.Attribute) and \
+                        N.txt(tgt.value) == 'self':
+                    initial[tgt.attr] = sub.value.value
+    rgraph = ctx.cfg(remove)
+    marks = {}
+    for node in rgraph.nodes:
+        for tgt, val, kind in K.assigns_attr(node):
+            if kind != 'assign' or N.txt(tgt.value) == 'self':
+                continue
+            if isinstance(val, ast.Constant) and tgt.attr in initial and \
+                    val.value != initial[tgt.attr] and \
+                    isinstance(val.value, bool):
+                marks[tgt.attr] = (initial[tgt.attr], node)
+    ctx.note('C08.6 marks left by %s: %s' % (remove.qualname,
+                                             sorted(marks) or 'none'))
+    if not marks:
+        ctx.ok('C08.6', remove, None,
+               'the leaf removal leaves no boolean mark on the instance '
+               'that differs from the constructor value',
+               construct='marks of the leaf removal', nontrivial=False)
+        return
+    pgraph = ctx.cfg(put)
+    appvar = put.params()[1]
+    wins = [n for n in pgraph.nodes if n.kind == 'return' and
+            isinstance(n.ast.value, ast.Constant) and n.ast.value.value]
+    ctx.require(wins, 'successful return of %s' % put.qualname,
+                rule='C08.6', func=put)
+    for attr, (value, _where) in sorted(marks.items()):
+        resets = [n for n in pgraph.nodes if any(
+            kind == 'assign' and tgt.attr == attr and
+            N.txt(tgt.value) == appvar and isinstance(val, ast.Constant) and
+            val.value == value for tgt, val, kind in K.assigns_attr(n))]
+        leak = None
+        for ret in wins:
+            leak = leak or K.find_path(pgraph.entry, [ret],
+                                       cut_node=lambda n: n in resets,
+                                       follow_exc=False)
+        # the other accepted design: every reader outside the scheduler
+        # module asks for 'not placed' in the same test
+        readers = []
+        unguarded = []
+        for modname in (K.MASTER, K.LOADER):
+            mod = ctx.index.module(modname)
+            for func in mod.all_functions():
+                for sub in K.walk_no_nested(func.node):
+                    test = getattr(sub, 'test', None)
+                    if test is None or not isinstance(
+                            sub, (ast.If, ast.While, ast.IfExp)):
+                        continue
+                    hit = [a for a in ast.walk(test) if isinstance(
+                        a, ast.Attribute) and a.attr == attr and
+                           isinstance(a.ctx, ast.Load)]
+                    if not hit:
+                        continue
+                    readers.append((func, sub))
+                    owner = N.txt(hit[0].value)
+                    conj = test.values if isinstance(
+                        test, ast.BoolOp) and isinstance(
+                            test.op, ast.And) else [test]
+                    texts = [N.txt(c) for c in conj]
+                    if not ('not %s.server' % owner in texts or
+                            '%s.server is None' % owner in texts):
+                        unguarded.append((func, sub))
+        ok = leak is None or (readers and not unguarded)
+        ctx.ob('C08.6', put, None, ok,
+               'the mark %r left by %s is withdrawn on every successful '
+               'path of the leaf placement (or every reader outside the '
+               'scheduler also requires "not placed")' % (
+                   attr, remove.qualname) if ok else
+               'an instance put back on a server keeps the mark %r left by '
+               '%s: a successful path of %s does not store %r, and %s acts '
+               'on the mark without asking whether the instance is placed'
+               % (attr, remove.qualname, put.qualname, value,
+                  ', '.join(sorted(set(f.qualname for f, _s in unguarded)))
+                  or 'a reader'),
+               path=K.describe(leak) if leak and not ok else None,
+               construct='mark %s withdrawn by the leaf placement' % attr)
+
+
 def _state_record(ctx):
     """C08.6: the stored record of a server's state - what a new master and
     a reload restart the retention clock from - is the model's own pair:
@@ -1004,6 +1107,7 @@ def _blacklist_match(ctx):
 def check(ctx):
     cell, nz = _inactive(ctx)
     _marks_of_this_freeze(ctx)
+    _marks_withdrawn(ctx)
     _blacklist_match(ctx)
     _placement_guards(ctx, cell, nz)
     _ordering(ctx, cell)
@@ -1036,6 +1140,15 @@ _L = 'lib/python/treadmill/scheduler/loader.py'
 _M = 'lib/python/treadmill/scheduler/master.py'
 
 MUTANTS = [
+    ('revert-F25-placed-again-still-evicted', [(_S, """        # The app has a placement again: it is no longer evicted.
+        app.evicted = False
+""", "")], 'C08.6'),
+    ('placed-again-evicted-reset-only-without-parent', [(_S, """        # The app has a placement again: it is no longer evicted.
+        app.evicted = False
+        if self.parent:
+""", """        if self.parent:
+            app.evicted = False
+""")], 'C08.6'),
     ('revert-F24-marks-of-earlier-freezes-kept', [(_M, """        for app in server.apps.values():
             app.unschedule = False
 
